@@ -1,5 +1,7 @@
 import GomlVerif.Lemmas.C12Tree
 import GomlVerif.Lemmas.C12Regex
+import GomlVerif.Lemmas.GrammarStep
+import GomlVerif.Props.C04
 /-!
 # C12 — the syntax tree is lossless and positions are exact
 
@@ -294,5 +296,72 @@ example : (buildTree [.op 191 none, .advance, .close] exToks).map (fun b => (lea
 
 /-- the balance hypothesis is needed: a token emitted before any node is open has no root -/
 example : (buildTree [.advance, .op 191 none, .close] exToks).isNone = true := by decide +kernel
+
+/-! ## round 11: the grammar functions (`Model/Grammar.lean`, tables in `Gen/Grammar.lean`)
+
+The model of `file::file` and everything below it produces, for the kinds of the real non-trivia tokens, an item
+tree whose event list `flatL` is compared event for event with the real `Parser.events` on every run. -/
+section grammar
+open Goml.Grammar Goml.Gen.Gram
+
+/-- **Every grammar function of the source is modelled, loop for loop**: the list of `fn`s of `file.rs`, `expr.rs`,
+`pattern.rs`, `path.rs`, `stmt.rs` with the number of `while`/`loop` heads in each, regenerated from the Rust text
+on every run, is exactly the model's table (a new function or a new loop breaks this theorem). -/
+theorem grammar_model_covers_source :
+    grammarFns.map (fun r => (r.2.1.toList, r.2.2.1.length)) = fnTable.map (fun r => (r.1.toList, r.2.2.length)) := by
+  decide +kernel
+
+/-- no first-set and no recovery set of the grammar contains `eof`, no binding-power table has an entry for it:
+a look that answers `eof` (real end, or fuel spent) never selects a branch that expects a token -/
+theorem grammar_sets_reject_eof :
+    T_Eof ∉ exprFirst ∧ T_Eof ∉ patternFirst ∧ T_Eof ∉ typeFirst ∧ T_Eof ∉ paramListRecovery ∧ T_Eof ∉ expectKeeps ∧
+      (∀ o ∈ prefixBp, o.1 ≠ T_Eof) ∧ (∀ o ∈ postfixBp, o.1 ≠ T_Eof) ∧ (∀ o ∈ infixBp, o.1 ≠ T_Eof) ∧
+      (∀ o ∈ typeInfixBp, o.1 ≠ T_Eof) := by
+  decide +kernel
+
+/-- every `(l_bp, r_bp)` the loops of `expr_bp` / `type_expr_bp` recurse with is a parameter the model instantiates:
+binding powers are below the number the model's `Fn` parameters range over (no silent truncation) -/
+theorem grammar_binding_powers_small :
+    (∀ o ∈ infixBp, o.2.1 < 64 ∧ o.2.2 < 64) ∧ (∀ o ∈ prefixBp, o.2 < 64) ∧ (∀ o ∈ postfixBp, o.2 < 64) := by
+  decide +kernel
+
+/-- **The tree contains every token the grammar saw** — for every token list: if the model's call budget did not
+run out (`oof = false`, observed on every input of the tie), the item tree of `file` has at least one `Advance` per
+non-trivia token and the cursor is at the end. *Partial*: (1) `grammar_terminates` (the budget never runs out) is
+not proved — see DESIGN.md, "The parser's grammar functions"; (2) that `flatL` of an item tree resolves to a
+balanced event list with the same number of `Advance`s (`resolve`/`balancedFrom`, i.e. the remaining hypotheses of
+`buildTree_lossless`) is checked on every real and model event list at run time and by the examples below, not
+proved for all item trees (the forward-parent encoding of `wrap` is the missing lemma). -/
+theorem parse_events_cover_tokens_partial (toks : List Nat) (h : (parseItems toks).oof = false) :
+    toks.length ≤ advsL (parseItems toks).out ∧ (parseItems toks).pos = toks.length :=
+  ⟨(file_consumes_all_tokens_partial toks h).2, (file_consumes_all_tokens_partial toks h).1⟩
+
+/-- `fn f[T: A](x: T) -> T { match x { P(a, (b, _)) => a } }`: an item with generics and bounds, a match with
+nested patterns (32 tokens) -/
+def exGrammar1 : List Nat := [32,65,4,65,10,65,5,0,65,10,65,1,11,65,2,39,65,2,65,0,65,8,0,65,8,50,1,1,12,65,3,3]
+
+/-- `fn ( ) { let = 1 ; } struct { a } }`: recovery in `func` (missing name), `let_stmt` (missing pattern),
+`struct_def` (missing name), `struct_field` (missing `:` and type) and a stray `}` at top level (14 tokens) -/
+def exGrammar2 : List Nat := [32,0,1,2,42,6,77,7,3,37,2,65,3,3]
+
+/-- non-vacuity: the budget suffices, the events are inside the hypotheses of `buildTree_lossless`, one `Advance`
+per token; the second text reports 10 errors and still keeps all 14 tokens -/
+example : (parseItems exGrammar1).oof = false ∧
+    (resolve (parseEvents exGrammar1)).map (fun r => (balancedFrom 0 r, advances r)) = some (true, 32) ∧
+    advsL (parseItems exGrammar1).out = 32 := by decide +kernel
+
+example : (parseItems exGrammar2).oof = false ∧
+    (resolve (parseEvents exGrammar2)).map (fun r => (balancedFrom 0 r, advances r)) = some (true, 14) ∧
+    ((parseEvents exGrammar2).filter fun e => match e with | .error _ => true | _ => false).length = 10 := by
+  decide +kernel
+
+/-- a forward parent produced by the model: `#[a] fn f() {}` — the attribute list (event 1) points 8 events ahead to
+the `FN` node (event 9) that `item_with_attrs` opens after it -/
+example : (parseEvents [28, 4, 65, 5, 32, 65, 0, 1, 2, 3]).take 10 =
+    [.op K_FILE none, .op K_ATTRIBUTE_LIST (some 8), .op K_ATTRIBUTE none, .advance, .advance, .advance, .advance,
+     .close, .close, .op K_FN none] := by
+  decide +kernel
+
+end grammar
 
 end Goml.C12
